@@ -167,7 +167,8 @@ def run(chk, model_ok=True):
             mib, base = c05.gen_mib(rng, table)
             kind = "next" if v1 else ("bulk" if table else rng.choice(["next", "bulk"]))
             maxrep, cap = (20, 50) if table else (rng.choice([1, 2, 3, 7, 20]), rng.choice([1, 2, 5, 50]))
-            inner = c05.agent_replies(mib, base, kind, maxrep, cap, v1, False, rng if (table or rng.random() < 0.5) else None)
+            inner = c05.agent_replies(mib, base, kind, maxrep, cap, v1, False, rng if (table or rng.random() < 0.5) else None,
+                                      0.85 if table else 0.5)
             log = []
 
             def reply_fn(req, inner=inner, log=log):
